@@ -49,7 +49,7 @@ def run(rep, tier):
         if c["spec"] and (c["top"] or c["content"]):
             nontrivial += 1
     rep.sample({"case": cases[len(cases) // 2], "observed": obs[len(cases) // 2]})
-    n = 200000 if thorough else 4000
+    n = 80000 if thorough else 4000
     tpath = vlib.record_trace("C04", ["record", "c04", "--n", str(n)])
     recs = vlib.read_ndjson(tpath)
     nrec, bad = vlib.validate_trace(rep, "C04", "Trace_C04", tpath)
